@@ -14,7 +14,8 @@
    loading it reproduces it. *)
 From Coq Require Import ZArith QArith List Bool Reals.
 From CV Require Import Base.Num Base.RNum C03.ResumeModel C03.ResumeProofs C06.RestraintModel C03.ObjectsModel
-  C03.RestraintResume C03.RestraintMachine C03.ObjectsProofs C03.SystemProofs C03.Witness.
+  C03.RestraintResume C03.RestraintMachine C03.ObjectsProofs C03.SystemProofs C03.Witness
+  C03.AbfObject C03.AbfResume C03.AbfSystem.
 Import ListNotations.
 Local Open Scope Z_scope.
 
@@ -51,6 +52,16 @@ Proof.
   - exact (resumable_saves _ _ _ _ _ _ _ HR).
 Qed.
 Print Assumptions C03_restraint_resumes.
+
+(* Module level: the step counter (part of the protocol: the resumed run numbers its steps like the
+   uninterrupted one) and the output schedules (trajectory lines; periodic state files). *)
+Theorem C03_module_schedule_resumes :
+  resumes_like_uninterrupted module_machine (fun _ => True) (fun o o' => fst o = fst o') eq eq.
+Proof.
+  apply resumes_uninterrupted_of_go_on; [reflexivity|].
+  exact (resumable_resumes _ _ _ _ _ _ _ module_resumable).
+Qed.
+Print Assumptions C03_module_schedule_resumes.
 
 (* Histogram (scalar variables), for every carrier: bins and the final grid, bin by bin. *)
 Theorem C03_histogram_resumes :
@@ -94,6 +105,34 @@ Theorem C03_system_resumes :
   resumes_like_uninterrupted sys_machine sys_ok sys_out_eq0 sys_out_eq sys_saved_eq.
 Proof. exact sys_resumes_uninterrupted. Qed.
 Print Assumptions C03_system_resumes.
+
+(* ABF (plain ABF on a grid: samples / gradients, bin hand-over with lagged total forces, subtractAppliedForce,
+   ramp, cap, scaled force; C04 model in closed loop with the engine), every carrier: bin, ABF force computed and
+   applied, total force on the variables at the re-executed step and afterwards (then also the reported total
+   force), and the final samples / gradients.  abf_ok excludes stepZeroData (see the histogram). *)
+Theorem C03_abf_resumes :
+  forall (T : Type) (O : NumOps T),
+    resumes_like_uninterrupted (abf_machine O) (@abf_ok T) (@abf_out_eq0 T) (@abf_out_eq T) eq /\
+    saves_what_it_loaded (abf_machine O) (@abf_ok T) eq.
+Proof.
+  intros T O. pose proof (abf_resumable O) as HR. split.
+  - apply resumes_uninterrupted_of_go_on; [reflexivity|].
+    exact (resumable_resumes _ _ _ _ _ _ _ HR).
+  - exact (resumable_saves _ _ _ _ _ _ _ HR).
+Qed.
+Print Assumptions C03_abf_resumes.
+
+(* ABF together with any number of restraints on its variables (the restraints' forces enter the total force
+   that ABF measures one step later): every carrier. *)
+Theorem C03_abf_with_restraints_resumes :
+  forall (T : Type) (O : NumOps T),
+    resumes_like_uninterrupted (abf_sys_machine' O)
+      (fun c => Forall r_ok (fst c) /\ abf_ok (snd c))
+      (pair_rel (all2 (@r_out_eq0 T)) (@abf_out_eq0 T))
+      (pair_rel (all2 (@r_out_eq T)) (@abf_out_eq T))
+      (pair_rel (all2 eq) eq).
+Proof. intros T O. exact (abf_sys_resumes O). Qed.
+Print Assumptions C03_abf_with_restraints_resumes.
 
 (* ---- non-vacuity ---- *)
 Example C03_ok_satisfiable :
